@@ -1,6 +1,6 @@
 (* Entry.v — named entry points: sx case -> sx result.  Used by the extracted
    driver and by the in-kernel replays (vm_compute). *)
-From WD Require Import Base LetterId Wire Protocol Conn Color Matcher MatcherParse Show Session.
+From WD Require Import Base LetterId Wire Protocol Conn Color Matcher MatcherParse Show Session Decode Render.
 
 Definition e_n2l (a : sx) : sx :=
   match a with
@@ -192,10 +192,39 @@ Definition e_enumval (a : sx) : sx :=
   | _ => sx_err
   end.
 
+(* ---- decode / render ----------------------------------------------------------------------- *)
+Definition sx_decoded (r : str * pmsg) : sx := SL [SS (fst r); sx_pmsg (snd r)].
+
+Definition e_decode (a : sx) : sx :=
+  match a with
+  | SS raw => sx_res sx_decoded (message raw)
+  | _ => sx_err
+  end.
+
+(* (dialect wmsg) -> (text, in-domain?, denoted message) *)
+Definition e_render (a : sx) : sx :=
+  match a with
+  | SL [d; m] =>
+      match get_dialect d, get_wmsg m with
+      | Some d', Some m' => SL [SS (render d' m'); sx_bool (wf_wmsg m'); sx_decoded (denote d' m')]
+      | _, _ => sx_err
+      end
+  | _ => sx_err
+  end.
+
+Definition e_splitargs (a : sx) : sx :=
+  match a with
+  | SS t => SL (map SS (split_args t))
+  | _ => sx_err
+  end.
+
 Definition entries (P : pdb) : list (str * (sx -> sx)) :=
   [ (s2l "n2l", e_n2l);
     (s2l "l2n", e_l2n);
     (s2l "mparse", e_mparse);
+    (s2l "decode", e_decode);
+    (s2l "render", e_render);
+    (s2l "splitargs", e_splitargs);
     (s2l "proto", e_proto P);
     (s2l "load", e_load);
     (s2l "enumval", e_enumval);
